@@ -49,6 +49,19 @@ PAL_EMPTY = [
 ALPHA = 'ab -'
 
 
+def rough_group(text):
+    """Driver-side heuristic only (used to steer generation towards conflicting settings, never for verdicts)."""
+    try:
+        c = int(text.split(';')[0])
+    except ValueError:
+        return text
+    for lo, hi, g in ((1, 2, 'b'), (22, 22, 'b'), (3, 3, 'i'), (23, 23, 'i'), (4, 4, 'u'), (21, 21, 'u'), (24, 24, 'u'), (30, 39, 'f'),
+                      (90, 97, 'f'), (40, 49, 'g'), (100, 107, 'g'), (58, 59, 'c')):
+        if lo <= c <= hi:
+            return g
+    return str(c)
+
+
 class Gen:
     def __init__(self, m, rng, weights, maxlen=8, odd=0.0, more=0.3, anstr=0.15, alpha=None):
         self.m, self.rng, self.w = m, rng, weights
@@ -170,6 +183,55 @@ class Gen:
             else:
                 o['sets'], o['S'] = self.settings()
         self.do(o)
+
+    def g_remove_edge(self):
+        """Remove a setting from a range that ends exactly where another setting begins while the removed one continues
+        (the restart at the range end must keep the precedence of both)."""
+        r = self.pick()
+        if not r:
+            return
+        sn = self.m.snaps[r]['s']
+        cands = []
+        for j in range(1, len(sn)):
+            prev = {i for i, _ in sn[j - 1]}
+            begins = [x for x in sn[j] if x[0] not in prev]
+            spanning = [x for x in sn[j] if x[0] in prev]
+            if begins and spanning:
+                tx = lambda t: ''.join(chr(c) for c in self.m.texts.rows[t - 1])
+                bg = {rough_group(tx(t)) for _, t in begins}
+                conf = [x for x in spanning if rough_group(tx(x[1])) in bg]
+                if conf:
+                    cands.append((j, conf))
+                    cands.append((j, conf))
+                cands.append((j, spanning))
+        if not cands:
+            # build the situation: A over a wide range, a conflicting B beginning inside it, then remove A up to B's start
+            n = len(sn)
+            if n < 3 or self.m.kinds[r] != 'S':
+                return self.g_remove()
+            pairs = [('31', '34'), ('34', '31'), ('1', '22'), ('22', '1'), ('31', '38;5;214'), ('4', '21')]
+            a_, b_ = self.rng.choice(pairs)
+            j = self.rng.randint(1, n - 1)
+            k = self.rng.randint(j + 1, n)
+            lo = self.rng.randint(0, j - 1)
+            self.do({'op': 'apply', 'r': r, 'sets': [{'k': 'aset', 'v': a_}], 'S': [a_], 'start': lo, 'end': self.rng.choice([None, n, k]), 'top': True})
+            self.do({'op': 'apply', 'r': r, 'sets': [{'k': 'aset', 'v': b_}], 'S': [b_], 'start': j, 'end': k, 'top': self.rng.random() < 0.8})
+            if self.rng.random() < 0.3:
+                self.do({'op': 'remove', 'r': r, 'all': True, 'start': self.rng.randint(lo, j - 1), 'end': j})
+            else:
+                self.do({'op': 'remove', 'r': r, 'sets': [{'k': 'aset', 'v': a_}], 'S': [a_], 'start': self.rng.randint(lo, j - 1), 'end': j})
+            return
+        j, spanning = self.rng.choice(cands)
+        inst, tid = self.rng.choice(spanning)
+        text = ''.join(chr(c) for c in self.m.texts.rows[tid - 1])
+        first = j - 1
+        while first > 0 and any(i == inst for i, _ in sn[first - 1]):
+            first -= 1
+        start = self.rng.randint(first, j - 1)
+        if self.rng.random() < 0.25:
+            self.do({'op': 'remove', 'r': r, 'all': True, 'start': start, 'end': j})
+        else:
+            self.do({'op': 'remove', 'r': r, 'sets': [{'k': 'aset', 'v': text}], 'S': [text], 'start': start, 'end': j})
 
     def g_clear(self):
         r = self.pick()
@@ -372,6 +434,33 @@ class Gen:
                 spec = spec.replace('5', '', 1) if '5' in spec else spec.replace('0', '', 1)
         self.do({'op': 'fmt', 'r': r, 'spec': spec, 'how': self.rng.choice(['format', 'format', 'to_str', 'fstr'])})
 
+    def g_pad_nested(self):
+        """Nested style ranges, then a left padding equal to the distance between two of their end points."""
+        if not self.room(5):
+            return
+        text = ''.join(self.rng.choice(self.alpha) for _ in range(self.rng.randint(4, 7)))
+        n = len(text)
+        e = self.do({'op': 'new', 'cls': 'S', 'text': text, 'sets': [{'k': 'aset', 'v': '31'}], 'S': ['31']})
+        r = e['res'][0]
+        pts = {0, n}
+        for code in self.rng.sample(['3', '1', '4', '34', '9', '42'], self.rng.randint(2, 3)):
+            a_ = self.rng.randint(0, n - 1)
+            b_ = self.rng.randint(a_ + 1, n)
+            pts |= {a_, b_}
+            self.do({'op': 'apply', 'r': r, 'sets': [{'k': 'aset', 'v': code}], 'S': [code], 'start': a_, 'end': b_, 'top': True})
+        a_, b_ = sorted(self.rng.sample(sorted(pts), 2))
+        d = b_ - a_
+        meth = self.rng.choice(['rjust', 'zfill', 'center', 'center'])
+        width = n + d if meth in ('rjust', 'zfill') else n + 2 * d + self.rng.choice([0, 1])
+        o = {'op': 'pad', 'r': r, 'm': meth, 'width': width, 'inplace': self.ip()}
+        if meth != 'zfill':
+            o['extend'] = self.rng.random() < 0.6
+            if self.rng.random() < 0.5:
+                o['fill'] = '*'
+        e = self.do(o)
+        if e['out'] == 'ok' and e['res']:
+            self.probe_closed(e['res'][0], 'probe_pad_closed')
+
     def g_strip(self):
         r = self.pick()
         if r and self.room(2):
@@ -569,15 +658,15 @@ PROFILES = {
                 assign_str=0.5, apply=0.5),
     'C11': dict(nonuniform=2.5, new=0.5, case=1.5, strip=2, rmfix=2, replace=3.5, expandtabs=1, split=3.5, splitlines=1.5,
                 partition=2.5, assign_str=1.5, apply=1.5, remove=0.5, add=0.5),
-    'C12': dict(nonuniform=2, new=1, pad=5, fmt=5, apply=2, remove=0.5, slice=0.5, add=0.5),
+    'C12': dict(nonuniform=2, new=1, pad=5, pad_nested=1.5, fmt=5, apply=2, remove=0.5, slice=0.5, add=0.5),
     'C16': weights(matching=5, apply=3, remove=1, slice=0.5, render=0.2),
     'C17': weights(find_settings=5, settings_at=2.5, apply=4, remove=2, slice=0.5, add=0.7, iadd=0.7),
     'C04': weights(slice=5, index=2, clip=2, iter=0.6, apply=3, remove=1.5),
     'C05': weights(add=4, iadd=4, join=2, split_rejoin=2, slice=2, iter_join=1.0),
     'C06': weights(apply=6, remove=1.5, slice=1),
-    'C07': weights(remove=5, apply=4, clear=0.5),
+    'C07': weights(remove=4, remove_edge=2.5, apply=5, clear=0.3),
     'C08': weights(copy=3, add=2.5, iadd=2.5, join=1.5, slice=3, new_from=2),
-    'C09': weights(iter_join=1.0, iadd=2.5, replace=1.0, pad=1.0, split=0.7, partition=0.5, strip=0.5, rmfix=0.5, case=0.3,
+    'C09': weights(iter_join=1.0, iadd=2.5, replace=1.0, pad=2.0, pad_nested=1.0, remove_edge=0.7, split=0.7, partition=0.5, strip=0.5, rmfix=0.5, case=0.3,
                    assign_str=0.5, query=0.5, matching=0.5, simplify=0.3, expandtabs=0.3, splitlines=0.3),
 }
 
